@@ -667,7 +667,7 @@ class Executor(object):
                 return [(s, VBool(z3.Not(self.truth(s, v))))]
             if isinstance(node.op, ast.USub):
                 if isinstance(v, VInt):
-                    return [(s, VInt(-v.t))]
+                    return [(s, VInt(z3.IntVal(-v.t.as_long()) if z3.is_int_value(v.t) else -v.t))]
                 if isinstance(v, VBool):
                     return [(s, VInt(-to_int(v)))]
                 if isinstance(v, VReal):
@@ -1067,10 +1067,30 @@ class Executor(object):
         self.assign_target(chk, g.target, sq.elem(gi))
         keep = z3.BoolVal(True)
         for cnd in g.ifs:
-            couts = self.ev(chk, cnd)
-            if len(couts) != 1 or isinstance(couts[0][1], Raised) or couts[0][0] is not chk:
-                raise Unsupported('comprehension filter must be a simple total expression')
-            keep = z3.And(keep, self.truth(chk, couts[0][1]))
+            base_pc = len(chk.pc)
+            base_tr = len(chk.trace)
+            probe = chk.fork()
+            couts = self.ev(probe, cnd)
+            if any(isinstance(v_, Raised) for _s, v_ in couts):
+                raise Unsupported('comprehension filter may raise')
+            if len(couts) == 1 and couts[0][0] is probe and len(probe.trace) == base_tr:
+                chk.pc = probe.pc
+                keep = z3.And(keep, self.truth(chk, couts[0][1]))
+            else:
+                # the filter forks (short-circuit around an opaque call): keep <=> some outcome is taken and true;
+                # the opaque calls it makes are recorded (once) as events of the generic iteration
+                alts = []
+                seen_ev = set()
+                for s_i, v_i in couts:
+                    delta = s_i.pc[base_pc:]
+                    alts.append(z3.And(delta + [self.truth(s_i, v_i)]))
+                    for ev_ in s_i.trace[base_tr:]:
+                        if id(ev_) not in seen_ev:
+                            seen_ev.add(id(ev_))
+                            chk.trace.append(ev_)
+                    if s_i.epoch != chk.epoch:
+                        chk.epoch = max(chk.epoch, s_i.epoch)
+                keep = z3.And(keep, z3.Or(alts))
         chk.assume(keep)
         chk.qinfo = (gi, sq.length(), keep)
         outs = self.ev(chk, node.elt)
@@ -1843,6 +1863,17 @@ class Executor(object):
                         setter = self.db.find_method(ci_, prop_[1])
                         outs_ = self.call_function(s, setter, [base, v], {}, None, force_inline=True)
                         return [(s2_, r_ if isinstance(r_, Raised) else None) for s2_, r_ in outs_]
+                decl_ = self.reg.class_decl(base.cls, self.db)
+                if isinstance(v, VSeq) and v.concrete and not v.items and decl_ and tgt.attr in decl_['fields']:
+                    # an empty list literal stored into a typed field: keep the element type (symbolic indexing of
+                    # the empty list must still be well-shaped)
+                    fty = parse_type(decl_['fields'][tgt.attr])
+                    if fty.kind == 'opt':
+                        fty = fty.args[0]
+                    if fty.kind == 'seq':
+                        proto = self.fresh(s, fty, tgt.attr + '_empty')
+                        s.heap[base.ref][tgt.attr] = VSeq(length=z3.IntVal(0), elem=proto.elem, kind=v.kind)
+                        return [(s, None)]
                 s.heap[base.ref][tgt.attr] = v
                 return [(s, None)]
             return self.bind(self.ev(st, tgt.value), k)
@@ -1968,6 +1999,9 @@ class Executor(object):
             return self.ex_With(st, outer)
         item = stmt.items[0]
         res = []
+        split = self.with_contextmanager(st, stmt, item)
+        if split is not None:
+            return split
         for s, cm in self.ev(st, item.context_expr):
             if isinstance(cm, Raised):
                 res.append((s, (RAISE, cm)))
@@ -1984,6 +2018,85 @@ class Executor(object):
                             res.append((s4, (RAISE, r)))
                         else:
                             res.append((s4, (kind, val)))
+        return res
+
+    def with_contextmanager(self, st, stmt, item):
+        """`with f(...)` where f is a repository generator function decorated with @contextmanager: the function body is
+        split at its single yield into an enter half and an exit half (exit is skipped when the with-body raises, unless
+        the yield sits in a try/finally -- then the finally part runs).  Returns None if the pattern does not apply."""
+        ce = item.context_expr
+        if not isinstance(ce, ast.Call) or any(isinstance(a, ast.Starred) for a in ce.args) or \
+                any(k.arg is None for k in ce.keywords):
+            return None
+        try:
+            fouts = self.ev(st.fork(), ce.func)
+        except Unsupported:
+            return None
+        if len(fouts) != 1 or not isinstance(fouts[0][1], VFunc) or fouts[0][1].kind != 'py':
+            return None
+        fv = fouts[0][1]
+        fi = fv.target
+        if 'contextmanager' not in fi.decorators or not fi.is_generator:
+            return None
+        if fi.key in self.reg.contracts or self.cur_policy(fi.key) == 'opaque' or \
+                (self.cur_policy(fi.key) != 'inline' and (self.cur_target or {}).get('default_callee') == 'opaque'):
+            return None
+        body = fi.node.body
+        pre = post = fin = None
+        for i, stt in enumerate(body):
+            if isinstance(stt, ast.Expr) and isinstance(stt.value, ast.Yield):
+                pre, yv, post, fin = body[:i], stt.value.value, body[i + 1:], []
+                break
+            if isinstance(stt, ast.Try) and not stt.handlers and not stt.orelse:
+                for j, s2 in enumerate(stt.body):
+                    if isinstance(s2, ast.Expr) and isinstance(s2.value, ast.Yield):
+                        pre, yv = body[:i] + stt.body[:j], s2.value.value
+                        post, fin = stt.body[j + 1:] + stt.finalbody + body[i + 1:], stt.finalbody
+                        break
+                if pre is not None:
+                    break
+        if pre is None:
+            return None
+        self.used_inline.add(fi.key)
+
+        def k(s, vs):
+            n = len(ce.args)
+            args = ([fv.selfv] if fv.selfv is not None else []) + vs[:n]
+            kwargs = {kw.arg: v for kw, v in zip(ce.keywords, vs[n:])}
+            env = self.bind_params(s, fi, args, kwargs)
+            caller = (s.env, s.fn, s.module, s.yielded, s.depth)
+            s.env, s.fn, s.module, s.depth = env, fi, fi.module, s.depth + 1
+            out = []
+            for s1, (k1, v1) in self.exec_block(s, pre):
+                if k1 != NEXT:
+                    s1.env, s1.fn, s1.module, s1.yielded, s1.depth = dict(caller[0]), caller[1], caller[2], caller[3], caller[4]
+                    out.append((s1, (k1, v1)))
+                    continue
+                yvals = self.ev(s1, yv) if yv is not None else [(s1, NONE)]
+                for s2, entered in yvals:
+                    cenv = s2.env
+                    s2.env, s2.fn, s2.module, s2.depth = dict(caller[0]), caller[1], caller[2], caller[4]
+                    if item.optional_vars is not None:
+                        self.assign_target(s2, item.optional_vars, entered)
+                    for s3, (k3, v3) in self.exec_block(s2, stmt.body):
+                        benv = s3.env
+                        tail = post if k3 != RAISE else fin
+                        s3.env, s3.fn, s3.module, s3.depth = dict(cenv), fi, fi.module, caller[4] + 1
+                        for s4, (k4, v4) in self.exec_block(s3, tail):
+                            s4.env, s4.fn, s4.module, s4.depth = benv, caller[1], caller[2], caller[4]
+                            if k4 == NEXT or k4 == RETURN:
+                                out.append((s4, (k3, v3)))
+                            else:
+                                out.append((s4, (k4, v4)))
+            return out
+        nodes = list(ce.args) + [kw.value for kw in ce.keywords]
+        outs = self.ev_list(st, nodes, lambda s, vs: [(s, ('$cm', k(s, vs)))])
+        res = []
+        for s, v in outs:
+            if isinstance(v, Raised):
+                res.append((s, (RAISE, v)))
+            else:
+                res.extend(v[1])
         return res
 
     # --- loops ---------------------------------------------------------------------------------
@@ -2213,6 +2326,7 @@ class Executor(object):
                 sp.spec = True
                 d0 = to_int(self.ev1(sp, self.reg.parse_spec(dec)))
             if self.feasible(s0):
+                s0_snap = s0.fork()
                 for s3, (k3, v3) in self.exec_block(s0, stmt.body):
                     if k3 in (NEXT, CONTINUE):
                         check_inv(s3, k + 1, 'preserve')
@@ -2228,6 +2342,11 @@ class Executor(object):
                     elif k3 == BREAK:
                         res.append((s3, (NEXT, None)))
                     else:
+                        if k3 == RAISE:
+                            for rt in linv.get('raise_trace', []):
+                                s3.iter_start_trace = n_trace0
+                                for oid_, goal_, text_ in rt(self, s3, k, s0_snap, v3):
+                                    self.oblige(s3, goal_, '%s.body.%s' % (tag, oid_), 'trace', where, {'clause': text_})
                         res.append((s3, (k3, v3)))
         # ---- after the loop
         after = hv.fork()
